@@ -5,4 +5,5 @@ func genAll(repo string) {
 	genCodec(repo)
 	genResolver(repo)
 	genGeom(repo)
+	genManager(repo)
 }
